@@ -90,6 +90,11 @@ impl<'t> Worker<'t> {
     ///
     /// It will panic when [`Self::init_connid_counter()`] has never been called.
     pub fn update_connid_counts(&mut self) {
+        // tokenize() builds no lattice for an empty sentence, so there is nothing to count
+        // (the lattice may still hold the previous sentence, or nothing at all).
+        if self.sent.chars().is_empty() {
+            return;
+        }
         self.lattice
             .add_connid_counts(self.counter.as_mut().unwrap());
     }
